@@ -27,9 +27,12 @@ def run_self_duration(case):
                     lambda: rec.__setitem__(2, "C"))
     src.pipe(ops.group_by_until(lambda kv: kv[0], None, dur)).subscribe(
         on_group, lambda e: outer_term.append("E"), lambda: outer_term.append("C"))
-    for kv in xs:
-        src.on_next(kv)
-    src.on_completed()
+    try:
+        for kv in xs:
+            src.on_next(kv)
+        src.on_completed()
+    except Exception as e:      # noqa: BLE001  nothing may escape into the emitter
+        outer_term.append("escaped into the emitter: " + type(e).__name__)
     return groups, outer_term
 
 
@@ -326,20 +329,23 @@ def run_shared_group(case):
     op = (ops.group_by_until(lambda v: v % 3, None, lambda g: __import__("reactivex").never()) if until
           else ops.group_by(lambda v: v % 3))
     outer = src.pipe(op).subscribe(on_group, lambda e: None, lambda: None)
-    for i, v in enumerate(xs):
-        if i == i_out:
+    try:
+        for i, v in enumerate(xs):
+            if i == i_out:
+                outer.dispose()
+            if i == i_a:
+                a_subs.dispose()
+            src.on_next(v)
+        if len(xs) <= i_out:
             outer.dispose()
-        if i == i_a:
+        if len(xs) <= i_a:
             a_subs.dispose()
-        src.on_next(v)
-    if len(xs) <= i_out:
-        outer.dispose()
-    if len(xs) <= i_a:
-        a_subs.dispose()
-    if term == "C":
-        src.on_completed()
-    else:
-        src.on_error(RuntimeError("boom"))
+        if term == "C":
+            src.on_completed()
+        else:
+            src.on_error(RuntimeError("boom"))
+    except Exception as e:      # noqa: BLE001  nothing may escape into the emitter
+        logs["escaped into the emitter"] = ([type(e).__name__], [])
     return {k: (list(a), list(b)) for k, (a, b) in logs.items()}
 
 
